@@ -542,6 +542,17 @@ pub fn run_c13(cfg: &Cfg) -> Report {
         if sdt_history(cx, init, &ops) {
             cx.rep.distinct(&(init, format!("{:?}", ops)));
         }
+        if cx.idx % 32 == 0 {
+            // negative control: the comparison must notice a table that differs from the model in one byte
+            let t = Sdt::new(*b"NEGC", 40, 1, [1; 6], [2; 8], 3);
+            let mut m = Model(t.as_slice().to_vec());
+            let k = r.usize_below(40);
+            m.0[k] ^= 1 << r.below(8);
+            cx.rep.neg_controls += 1;
+            if t.as_slice() == &m.0[..] {
+                cx.rep.inconclusive("negative control: corrupted byte-vector model equals the table".to_string());
+            }
+        }
     }));
     // creation with a declared length below the header size must be refused
     rep.merge(par_cases(cfg, "sdt.short", 36, |cx| {
@@ -608,7 +619,10 @@ pub fn run_c17(cfg: &Cfg) -> Report {
         }
         cx.rep.evaluations += 256 * 5;
         if st == 200 {
-            cx.sample(|| obj(vec![("state", 200u64.into()), ("op", "add".into()), ("byte", 100u64.into()), ("raw_value_expected", 44u64.into())]));
+            let mut c = Checksum::default();
+            c.add(200);
+            c.add(100);
+            cx.sample(|| obj(vec![("state", 200u64.into()), ("op", "add".into()), ("byte", 100u64.into()), ("raw_value_observed", (c.raw_value() as u64).into()), ("checksum_observed", (c.value() as u64).into())]));
         }
     }));
     let nr = cfg.scaled(if thorough { 1_000_000 } else { 20_000 });
@@ -709,6 +723,9 @@ pub fn run_c17(cfg: &Cfg) -> Report {
             }
         }
         cx.rep.distinct(&(n, model));
+        if cx.idx % 101 == 7 {
+            cx.sample(|| obj(vec![("history_length", n.into()), ("last_ops", format!("{:?}", &log[log.len().saturating_sub(5)..]).into()), ("final_raw_value", (c.raw_value() as u64).into())]));
+        }
     }));
     let _ = (get as fn(&[u8], usize, usize) -> u64, <Checksum as Default>::default);
     let _: Option<&dyn Aml> = None;
